@@ -499,9 +499,68 @@ TAMPERS = ("none", "none", "none", "unquote", "lowercase-escapes", "requote", "f
 CSRF_PHRASES = ("csrf", "signatures do not match", "re-use of", "cookie not present")
 
 
+B64 = "ABCDEFGHIJKLMNOPQRSTUVWXYZabcdefghijklmnopqrstuvwxyz0123456789+/"
+ODD_CHARS = [".", "-", "_", "!", " ", "\n", "\t", "=", "*", "~", "\\", "'", "b", "%41", "\u00e9", ",", ":", "\x00"]
+
+
+def tamper_strategy():
+    """the fixed spellings plus character-level edits anywhere in the token: 'ins:<permille>:<i>' inserts
+    ODD_CHARS[i] / a base64 symbol, 'rep:<permille>:<i>' replaces one character by another base64 symbol,
+    'del:<permille>' deletes one, 'last:<k>' replaces the last base64 symbol before the padding by the k-th other
+    symbol (the ones that differ only in the unused trailing bits included), 'pad+' / 'pad-' add or strip '='."""
+    from hypothesis import strategies as st
+    pm = st.integers(0, 1000)
+    return st.one_of(
+        st.sampled_from(TAMPERS), st.sampled_from(TAMPERS),
+        st.builds(lambda p, i: f"ins:{p}:{i}", pm, st.integers(0, len(ODD_CHARS) + 63)),
+        st.builds(lambda p, i: f"rep:{p}:{i}", pm, st.integers(0, 63)),
+        st.builds(lambda p: f"del:{p}", pm),
+        st.builds(lambda k: f"last:{k}", st.integers(0, 62)),
+        st.sampled_from(["pad+", "pad-"]),
+    )
+
+
+def _char_tamper(token: str, kind: str) -> str | None:
+    """edits are made on the unquoted text and the result is quoted again the way the server issues tokens"""
+    canon = urllib.parse.unquote(token)
+    parts = kind.split(":")
+    if parts[0] == "pad+":
+        out = canon[:-1] + "=" + canon[-1:] if canon.endswith("'") else canon + "="
+    elif parts[0] == "pad-":
+        out = canon.replace("=", "", 1) if "=" in canon else canon[:-1]
+    elif parts[0] == "last":
+        body_end = len(canon)
+        while body_end > 0 and canon[body_end - 1] in "='":
+            body_end -= 1
+        if body_end == 0:
+            return token + "A"
+        cur = canon[body_end - 1]
+        others = [c for c in B64 if c != cur]
+        out = canon[:body_end - 1] + others[int(parts[1]) % len(others)] + canon[body_end:]
+    else:
+        pos = min(len(canon) - 1, len(canon) * int(parts[1]) // 1000)
+        if parts[0] == "del":
+            out = canon[:pos] + canon[pos + 1:]
+        elif parts[0] == "ins":
+            i = int(parts[2])
+            ch = ODD_CHARS[i] if i < len(ODD_CHARS) else B64[i - len(ODD_CHARS)]
+            if ch == "%41":
+                return urllib.parse.quote(canon[:pos]) + "%41" + urllib.parse.quote(canon[pos:])
+            out = canon[:pos] + ch + canon[pos:]
+        else:
+            cur = canon[pos]
+            others = [c for c in B64 if c != cur]
+            out = canon[:pos] + others[int(parts[2]) % len(others)] + canon[pos + 1:]
+    if out == canon:
+        out = canon + "A"
+    return urllib.parse.quote(out)
+
+
 def tamper(token: str, kind: str) -> str | None:
     if kind == "none":
         return token
+    if ":" in kind or kind in ("pad+", "pad-"):
+        return _char_tamper(token, kind)
     if kind == "omit":
         return None
     if kind == "unquote":
@@ -693,7 +752,7 @@ class CsrfSequences(Engine):
         from hypothesis import strategies as st
         jar = st.sampled_from(["A", "A", "B"])
         issue = st.tuples(st.just("issue"), st.sampled_from(SERVICES), jar)
-        use = st.tuples(st.just("use"), st.integers(0, 5), st.sampled_from(SEQ_OP_NAMES), jar, st.sampled_from(TAMPERS))
+        use = st.tuples(st.just("use"), st.integers(0, 5), st.sampled_from(SEQ_OP_NAMES), jar, tamper_strategy())
 
         @st.composite
         def case(draw):
@@ -711,7 +770,7 @@ class CsrfSequences(Engine):
                     svc = "keys@refresh"
                 first = [("issue", svc, j)]
                 second = ("use", 0, draw(st.sampled_from([op, op, draw(st.sampled_from(SEQ_OP_NAMES))])),
-                          draw(st.sampled_from([j, j, "A", "B"])), draw(st.sampled_from(TAMPERS)))
+                          draw(st.sampled_from([j, j, "A", "B"])), draw(tamper_strategy()))
                 proper = ("use", 0, op, j, "none")
                 rest = ([proper, second] if kind < 3 else [second, proper]) + rest
             return {"steps": [list(s) for s in first + rest]}
